@@ -1,1 +1,19 @@
-fn main() {}
+mod c20;
+mod concat;
+mod like;
+mod needle;
+mod oracle;
+mod regexp;
+mod substr;
+mod tables;
+mod util;
+fn main() {
+    let ctx = vcore::Ctx::from_args();
+    match ctx.prop.as_str() {
+        "C20" => c20::run(&ctx),
+        other => {
+            eprintln!("MACHINERY: vk-string does not serve property {other:?}");
+            std::process::exit(2)
+        }
+    }
+}
